@@ -72,6 +72,9 @@ package storage
 //@   call[store.Resume#0] assert args [C12]: ref(arg0) == ref(rw) && ref(arg1) == ref(sc.reader) && ref(arg2) == ref(sc.dataWriter) && ref(arg3) == ref(sc.idx) && arg4 == roots && arg5 == sc.header.DataOffset && arg6 == sc.opts.WriteAsCarV1 && arg7 == sc.opts.MaxAllowedHeaderSize && arg8 == sc.opts.ZeroLengthSectionAsEOF
 //@   call[store.Resume#0] assert version_checked [C12]: rverr == nil
 //@   call[store.ResumableVersion#0] assert args [C12]: arg1 == sc.opts.WriteAsCarV1
+//@   let rerr := call[store.Resume#0]
+//@   ensures opens_only_by_resuming [C06,C12]: err == nil ==> rverr == nil && rerr == nil
+//@   note opens_only_by_resuming: every successful return went through ResumableVersion and Resume: an existing file is validated and resumed, never started afresh
 
 //@ func newReadableWritable
 //@   requires nonnil: rw != nil
